@@ -31,7 +31,7 @@ theorem command_closed (d : CommandDef) (n : Nat) :
 
 /-- what `ClangShellCommand::getSignature()` appends to the ExternalCommand part -/
 def clangLeaves (d : CommandDef) : List HashTerm :=
-  .int d.args.length :: d.args.map .str
+  .int d.args.length :: (d.args.map .str ++ [.str d.depsPath])
 
 theorem clang_closed (d : CommandDef) (n : Nat) :
     sigTerm recipeOf d (n+2) .clangShellCommand = some (chain (.str d.name) (extLeaves d ++ clangLeaves d)) := by
@@ -51,7 +51,7 @@ def swiftLeaves (d : CommandDef) : List HashTerm :=
   (.int d.importPaths.length :: (d.importPaths.map .str ++
   (.str d.tempsPath ::
   .int d.otherArgs.length :: (d.otherArgs.map .str ++
-  [.bool d.isLibrary])))))))))
+  [.bool d.isLibrary, .bool d.enableWholeModuleOptimization, .str d.numThreads])))))))))
 
 theorem swift_closed (d : CommandDef) (n : Nat) :
     sigTerm recipeOf d (n+2) .swiftCompilerShellCommand = some (chain (.str d.name) (extLeaves d ++ swiftLeaves d)) := by
@@ -60,6 +60,18 @@ theorem swift_closed (d : CommandDef) (n : Nat) :
   rw [hs]
   simp only [swiftCompilerShellCommand, runSteps, runStep, external_closed]
   simp [runStmt, runComb, evalExpr, CommandDef.member, callMethod, leafOf, Val.elems, swiftLeaves, chain_append]
+
+/-- what `SharedLibraryShellCommand::getSignature()` appends to the ExternalCommand part -/
+def sharedLibLeaves (d : CommandDef) : List HashTerm :=
+  .str d.executable :: .str d.compilerStyle :: .int d.otherArgs.length :: d.otherArgs.map .str
+
+theorem sharedLib_closed (d : CommandDef) (n : Nat) :
+    sigTerm recipeOf d (n+2) .sharedLibraryShellCommand = some (chain (.str d.name) (extLeaves d ++ sharedLibLeaves d)) := by
+  have hs : sigTerm recipeOf d (n+2) .sharedLibraryShellCommand =
+      runSteps d (fun c' => sigTerm recipeOf d (n+1) c') none sharedLibraryShellCommand := rfl
+  rw [hs]
+  simp only [sharedLibraryShellCommand, runSteps, runStep, external_closed]
+  simp [runStmt, runComb, evalExpr, CommandDef.member, callMethod, leafOf, Val.elems, sharedLibLeaves, chain_append]
 
 /-- `SymlinkCommand::getSignature()` starts at `outputs[0]`: with at least one output it is defined … -/
 theorem symlink_closed (d : CommandDef) (n : Nat) (o : Bytes) (os : List Bytes) (h : d.outputs = o :: os) :
